@@ -640,6 +640,34 @@ func c08Restart(p *Prog, c *Check) {
 				encs = append(encs, e)
 			}
 		}
+		// ... possibly in a helper of the package that is handed the argument and whose bytes are returned
+		efn, eprm := fn, ssa.Value(fn.Params[0])
+		if len(encs) == 0 {
+			for _, r := range returnsOf(fn) {
+				if hc, isPT := passThroughCall(r); isPT {
+					g := hc.Common().StaticCallee()
+					if g == nil || !inModule(g) || g.Blocks == nil || fnPkgPath(g) != fnPkgPath(fn) {
+						continue
+					}
+					g = origin(g)
+					for i, a := range hc.Common().Args {
+						if unbox(a) == ssa.Value(fn.Params[0]) && i < len(g.Params) {
+							for _, e := range callsTo(g, "(*encoding/gob.Encoder).Encode") {
+								if unbox(e.Common().Args[1]) == ssa.Value(g.Params[i]) {
+									encs = append(encs, e)
+									efn, eprm = g, ssa.Value(g.Params[i])
+								}
+							}
+						}
+					}
+				}
+			}
+			if efn != fn {
+				c.Analysed(shortFn(efn))
+				fn, fi = efn, p.Info(efn)
+			}
+		}
+		_ = eprm
 		ok := len(encs) == 1
 		why := fmt.Sprintf("expected one gob Encode call of the function's argument itself, found %d", len(encs))
 		if ok {
@@ -647,7 +675,7 @@ func c08Restart(p *Prog, c *Check) {
 			for _, b := range fn.Blocks {
 				for _, in := range b.Instrs {
 					if st, isSt := in.(*ssa.Store); isSt {
-						if fa, isFA := st.Addr.(*ssa.FieldAddr); isFA && fa.X == ssa.Value(fn.Params[0]) {
+						if fa, isFA := st.Addr.(*ssa.FieldAddr); isFA && fa.X == eprm {
 							ok, why = false, "the state is modified while being encoded"
 						}
 					}
